@@ -94,6 +94,16 @@ def run1Old (s : St1) : List Op1 → St1
   | [] => s
   | o :: os => run1Old (step1Old s o) os
 
+/-- `setIfMissing` (treestorage.go, since /repo 6a4418f; what `handleSendTree` — `onlyRequested` — and
+`checkPendingTreeMarshal` store a peer's tree with): test and write are ONE step under the store's lock.  A tree that is
+present stays; otherwise — and, with `onlyRequested`, only in a slot that was registered — it is `Set`.  The flag tells
+whether the tree was stored. -/
+def setIfMissing1 (s : St1) (c : Nat) (onlyRequested : Bool) : St1 × Bool :=
+  match s.slot with
+  | .present _ => (s, false)
+  | .absent => if onlyRequested then (s, false) else (step1 s (.set c), true)
+  | .requested => (step1 s (.set c), true)
+
 /-! the whole store: one `St1` per id, sharing `closed` -/
 structure St where
   at_ : Nat → St1 := fun _ => {}
